@@ -95,10 +95,42 @@ def disruption_scenarios(run, rng, t):
     return scen, len(behs)
 
 
+def scenario_shapes(dscen, sscen):
+    """What the scenarios contain of the shapes some side effects need (counted on the scenarios that are actually run)."""
+    c = {"disruption_scenarios_with_nodeoverlay_gate": 0, "disruption_capacity_overlay_first_applied_in_bracket": 0, "disruption_price_overlays": 0,
+         "disruption_nodes_lacking_labels": 0, "disruption_nodes_without_hostname_running_required_antiaffinity_pod": 0,
+         "sched_scenarios_with_capacity_overlay": 0, "sched_scenarios_with_price_overlay": 0, "sched_nodes_without_hostname_running_required_antiaffinity_pod": 0}
+    for s in dscen:
+        if (s.get("options") or {}).get("nodeOverlay"):
+            c["disruption_scenarios_with_nodeoverlay_gate"] += 1
+            ovs = list(s.get("overlays") or [])
+            steps = s["steps"]
+            for i, st in enumerate(steps):
+                if st["a"] == "SetOverlay":
+                    ovs.append(st["overlay"])
+                    # the capacity overlay is applied for the first time by whatever resolves instance types next
+                    if st["overlay"].get("capacity") and i + 1 < len(steps) and steps[i + 1]["a"] in ("Simulate", "Method", "Pass"):
+                        c["disruption_capacity_overlay_first_applied_in_bracket"] += 1
+            c["disruption_price_overlays"] += sum(1 for o in ovs if o.get("price") or o.get("priceAdjustment"))
+        for n in s["nodes"]:
+            if n.get("dropLabels"):
+                c["disruption_nodes_lacking_labels"] += 1
+                if "hostname" in n["dropLabels"] and any(p["node"] == n["name"] and "antiAffinity" in (p.get("ext") or {}) for p in s["pods"]):
+                    c["disruption_nodes_without_hostname_running_required_antiaffinity_pod"] += 1
+    for s in sscen:
+        ovs = s.get("overlays") or []
+        c["sched_scenarios_with_capacity_overlay"] += any(o.get("capacity") for o in ovs)
+        c["sched_scenarios_with_price_overlay"] += any(o.get("price") or o.get("priceAdjustment") for o in ovs)
+        for n in s.get("nodes") or []:
+            if n.get("noHost") and any(p.get("node") == n["name"] and p.get("anti") for p in s["pods"]):
+                c["sched_nodes_without_hostname_running_required_antiaffinity_pod"] += 1
+    return c
+
+
 def sched_scenarios(run, rng, t):
     base = []
     for prof, n in t["sched"].items():
-        base += [(prof, sc.explore(rng, prof, "f-%s-%d-%d" % (prof, run.seed, i))) for i in range(n)]
+        base += [(prof, fc.sched_frame_variant(rng, sc.explore(rng, prof, "f-%s-%d-%d" % (prof, run.seed, i)), i)) for i in range(n)]
     out = []
     # every scenario under BOTH preference policies; minValues policy, worker count and (reserved profile) strict / fallback cycle
     for i, (prof, s) in enumerate(base):
@@ -264,7 +296,10 @@ def check(run):
                 "ports / CSI volumes / preferences that get relaxed / anti-affinity / spread, pending pods, random candidate sets, "
                 "live / cancelled / timing-out simulations, all five methods, provisioning passes and real mutations in between; the "
                 "C07 explorer clusters) or one scheduling scenario on the sched driver (C01 explorer profiles basic / interpod / "
-                "reserved + the option grid + the C01 witnesses); non-trivial = at least one judged bracket in which the real code "
+                "reserved + the option grid + the C01 witnesses). Both drivers also run with the NodeOverlay feature gate wired as in the operator (every "
+                "component behind overlay.Decorate, the real nodeoverlay controller on the undecorated provider; capacity and price overlays that exist "
+                "from the start, appear, change and vanish between the bracketed calls) and with Node objects that lack well-known labels (hostname, "
+                "zone, arch/os) while running pods with required anti-affinity; non-trivial = at least one judged bracket in which the real code "
                 "placed a pod (on an existing node or a new NodeClaim) or issued a command")
     if os.environ.get("VERIF_FAST"):
         run.notes.append("VERIF_FAST: closed models and spec mutations skipped")
@@ -273,6 +308,12 @@ def check(run):
     rng = random.Random(run.seed * 1009 + 18)
     dscen, nbeh = disruption_scenarios(run, rng, t)
     sscen = sched_scenarios(run, rng, t)
+    shape = scenario_shapes(dscen, sscen)
+    for k in ("disruption_capacity_overlay_first_applied_in_bracket", "sched_scenarios_with_capacity_overlay", "sched_scenarios_with_price_overlay",
+              "disruption_price_overlays", "disruption_nodes_without_hostname_running_required_antiaffinity_pod",
+              "sched_nodes_without_hostname_running_required_antiaffinity_pod"):
+        if not shape[k]:
+            raise vlib.InfraError("scenario alphabet is missing %s (vacuous for that class of side effects)" % k)
     dfiles = dc.record(run, dscen, prefix="frame", procs=t["procs"], shards=2)
     sfiles, ssums = record_sched(run, sscen, "framesched", t["procs"])
     bad = [s for s in ssums if s.get("status") != "ok"]
@@ -313,6 +354,7 @@ def check(run):
     run.extra_cov.update({
         "option_combinations": {"disruption": "all scenarios x {Respect,Ignore} x {Strict,BestEffort}",
                                 "sched": "all scenarios x {Respect,Ignore} (minValues / workers / reserved strict-fallback cycling) + full grid on a subset"},
+        "scenario_shapes": shape, "nodeoverlay_reconcile_errors": sum(x.get("overlay_errs", 0) for x in summ),
         "frame_behaviours_from_tlc": nbeh, "disruption_scenarios": len(dscen), "sched_scenarios": len(sscen),
         "judged_brackets_by_call": judged, "direct_simulations": sims, "simulations_cancelled_or_timed_out_or_rejected": sim_errs,
         "commands": cmds, "pods_placed_on_existing_nodes_in_brackets": placed_existing, "pods_placed_on_new_claims_in_brackets": placed_new,
@@ -336,6 +378,17 @@ def check(run):
         "terms, preferred pod (anti-)affinity, ScheduleAnyway spreads, PreferNoSchedule pool taints), and the long-lived pod objects - the candidates' "
         "pods and the CapacityBuffer virtual pods of the provisioner's shared cache - are sections of the snapshot (x:candidatePods, x:virtualPods); "
         "pending pods of a pass are listed afresh from the API by the pass itself, so nothing outlives it",
+        "NodeOverlay: a third of the TLC behaviours, ~40% of the rich clusters and a third of the scheduling scenarios run with the feature gate on, wired as in "
+        "kwok/main.go + controllers.NewControllers (cluster state, informers, provisioner, disruption controller / methods get overlay.Decorate(provider); the "
+        "real nodeoverlay controller evaluates the NodeOverlay objects against the UNDECORATED provider and swaps the instance type store). The catalog "
+        "section digests the harness provider's OWN instance types (Provider.Types / TypesForPool), never the decorator's copies. A side effect of APPLYING "
+        "an overlay is idempotent, so it only shows in the bracket of the first application: overlays are therefore created / changed / deleted BETWEEN the "
+        "bracketed calls (disruption driver: SetOverlay / DeleteOverlay steps; sched driver: the overlays appear right before the pass), and the candidate "
+        "discovery of a Simulate step (which resolves every pool's instance types) is now inside the bracket of the first simulation, as it always was for "
+        "methods; pods request the extended resource a capacity overlay provides, so the overlays decide placements",
+        "nodes lacking well-known labels: ~30% of the rich clusters' nodes, n2 of every other TLC behaviour and ~30% of the scheduling scenarios' Node objects "
+        "lack kubernetes.io/hostname (others zone, arch/os) - the NodeClaim keeps its labels -, and run a pod with REQUIRED hostname anti-affinity (for "
+        "which the scheduler reads the live Node out of cluster state); StateNode.Node is digested with all its fields (labels included) in the node section",
         "HEAD behaviours examined and found representation-level (quotiented, not violations): (1) Topology.newForTopologies appends the "
         "matchLabelKeys expressions to the caller's pod LabelSelector in place on every Update - the selector of a candidate's / cached virtual pod "
         "grows by one duplicate 'key In [value]' per simulation (reproduced: 0,1,2,3 expressions over three simulations); the expressions are "
